@@ -270,8 +270,35 @@ class Ctx:
                 used_axioms.update(axs)
         self.cov["discharged"] = discharged
         self.cov["axioms_used"] = sorted(used_axioms)
+        if self.thorough and not report["errors"]:
+            okk, res = self.coqchk()
+            if not okk:
+                report["errors"].append("coqchk failed or reports non-allowed axioms: %s" % res)
         self.proof_report = report
         return (not report["errors"]) and discharged == len(thms), report
+
+    def coqchk(self, timeout=1500):
+        """Thorough tier: re-check the compiled closure of Properties/<prop> with the independent
+        checker and record the axioms it reports (coqchk -o)."""
+        rc, out = sh(["coqchk", "-o", "-silent", "-Q", str(COQ), LOGICAL, "%s.Properties.%s" % (LOGICAL, self.prop)],
+                     timeout=timeout, cwd=COQ)
+        m = re.search(r"\* Axioms:(.*?)\n\s*\n\* Constants/Inductives relying on type-in-type:(.*?)\n\s*\n"
+                      r"\* Constants/Inductives relying on unsafe \(co\)fixpoints:(.*?)\n\s*\n"
+                      r"\* Inductives whose positivity is assumed:(.*?)\n", out, re.S)
+        res = {"rc": rc}
+        if m:
+            res["axioms"] = [x.strip() for x in m.group(1).strip().split("\n") if x.strip() and x.strip() != "<none>"]
+            res["type_in_type"] = m.group(2).strip()
+            res["unsafe_fix"] = m.group(3).strip()
+            res["assumed_positivity"] = m.group(4).strip()
+        else:
+            res["tail"] = out[-1500:]
+        self.notes["coqchk"] = res
+        ok = rc == 0 and m is not None and all(res[k] == "<none>" for k in ("type_in_type", "unsafe_fix", "assumed_positivity"))
+        if ok:
+            allowed = {x.split(".")[-1] for x in ALLOWED_AXIOMS}
+            ok = all(a.split(":")[0].strip().split(".")[-1] in allowed for a in res["axioms"])
+        return ok, res
 
     def closure(self):
         """.v files (relative to coq/) in the dependency closure of Properties/<prop>.v."""
